@@ -174,14 +174,17 @@ TIE_NOTE_RENDER = (" Renderers (group render): append-style byte building (`buf 
                    "FormatInt/AppendInt(10), AppendBool are READ as RenderNum.dec_u / hex_u / dec_s / bool_text, the printers the hand model "
                    "uses (Translate/GoSemText.v); strconv.FormatFloat / AppendFloat(f, 'g' or 'f', -1, 64) have NO model: they are oracle "
                    "parameters (bit pattern -> text) of the translated functions, as in the hand model (segments FloatG / FloatF), and the "
-                   "lemmas hold for every such function. The loops of Marshal / MarshalCompact / canjson.Marshal over an interface value "
-                   "(generated.Message) and encoding/json's struct encoder are NOT translated: hand model + correspondence run only.")
+                   "lemmas hold for every such function; time.Duration.String() likewise (GoDuration). A parameter of the interface type "
+                   "generated.Message is READ as the pair of the values its Frame() / Descriptor() methods return (pure, stable across calls; "
+                   "that the generated methods return what the model says is the wiring tie of C03/C10). canjson.Marshal's loop, "
+                   "encoding/json's struct encoder, AppendSendType, AppendFrame and candebug are NOT translated: hand model + correspondence run only.")
 translate_tie.describe(PROPERTIES, "C19", "(here: the pkg/descriptor functions the renderers call: Unmarshal*, UnmarshalPhysical, ToPhysical, "
                        "bounds, the can.Data accessors, and the lookups with loops UnmarshalValueDescription/ValueDescription, "
                        "Database.Message/Node/Signal, Message.MultiplexerSignal; AND THE RENDERERS THEMSELVES, group render: "
                        "pkg/canjson/encode.go uintToJSON/intToJSON/floatToJSON, signal.setUnsignedValue/setSignedValue/setBoolValue/set = "
                        "json_signal_value; pkg/cantext/encode.go AppendSignal = buf ++ render(text_signal), AppendSignalCompact = "
-                       "buf ++ render(text_compact_signal), AppendID, AppendSender, appendAttributeString)",
+                       "buf ++ render(text_compact_signal), AppendID, AppendSender, appendAttributeString, AppendCycleTime, AppendDelayTime, and the loops "
+                       "Marshal = render(text_multiline_data), MarshalCompact / MessageString = render(text_compact_data))",
                        translate_tie.TIE_NOTE_INT, translate_tie.TIE_NOTE_FLOAT, translate_tie.TIE_NOTE_LOOP, TIE_NOTE_RENDER)
 
 
